@@ -367,7 +367,9 @@ def _decide(args, P, seed, scratch, t0):
     ev = dict(property_id=prop, tier=tier, seed=seed, level=P.get('level', 'proof'), coverage=cov,
               assumptions=sorted(assumptions) + P.get('assumptions', []), wall_s=round(wall, 2), violations=len(viol))
     os.makedirs(os.path.join(VERIF, 'evidence'), exist_ok=True)
-    json.dump(ev, open(os.path.join(VERIF, 'evidence', prop + '.json'), 'w'), indent=1)
+    if not (args.no_kani and P.get('kani')):
+        # --no-kani is a developer shortcut: it must not replace the evidence of a full run
+        json.dump(ev, open(os.path.join(VERIF, 'evidence', prop + '.json'), 'w'), indent=1)
     print('%s %s: verus %d/%d obligations discharged in %d units%s; wall %.1fs; exit %d' % (
         prop, tier, discharged, obligations, len(results),
         ('; kani %d/%d complete checks, %d bounded' % (kani_ev['complete_checks_ok'], kani_ev['complete_checks'], len(kani_ev['bounded']))) if kani_ev else '',
